@@ -49,7 +49,7 @@ DOM = 2
 
 
 def bounds(tier):
-    return {'max_rule_instances': 6 if tier == 'quick' else 7, 'rule_templates': len(RULES)}
+    return {'max_rule_instances': 7 if tier == 'quick' else 8, 'rule_templates': len(RULES)}
 
 
 # ---------------------------------------------------------------------------------------------
